@@ -62,25 +62,25 @@ CHECKS = {
 # appended to the level text so that MANIFEST.json describes the checks as they run today.
 ADDED = {
  "C01": "two competing children of the tip submitted by two goroutines at the same moment (only the labels of one of the two sequential orders are accepted); reorganisations over 500 and 2002 heights (thorough: 499..2600); difficulty bits whose work lies next to 2^32 / 2^64 / 2^128 / 2^192.",
- "C02": "reorganisations over 501 and 1002 heights (thorough: up to 2001) after which every block of both branches is asked about, one request of 1000+ items in shuffled order, two competing blocks submitted at once, a relabelling statement that fails in the middle of a reorganisation.",
- "C03": "INSERT failures injected in the middle of histories, histories in a non-UTC process time zone, stores filled by the start-up import of a prepared file and then extended, stores filled by ingestion after a refused import and a plain restart, stores on testnet / regtest / simnet, parents and ancestor paths re-read through the service.",
- "C04": "queries at reorganisation points and after restarts, long stores (2000+ header paths, farthest pairs), by-height windows at the 32-bit limits and with negative start or length, and for two stored headers of which neither descends from the other the same-chain error is required (unless the would-be ancestor lies above the header).",
+ "C02": "reorganisations over 501 and 1002 heights (thorough: up to 2001) after which every block of both branches is asked about, one request of 1000+ items in shuffled order, two competing blocks submitted at once, a relabelling statement that fails in the middle of a reorganisation. Block heights beyond 32 bits written as plain JSON numbers.",
+ "C03": "INSERT failures injected in the middle of histories, histories in a non-UTC process time zone, stores filled by the start-up import of a prepared file and then extended, stores filled by ingestion after a refused import and a plain restart, stores on testnet / regtest / simnet, parents and ancestor paths re-read through the service. Towers of target-1 blocks whose cumulative work passes 10^78.",
+ "C04": "queries at reorganisation points and after restarts, long stores (2000+ header paths, farthest pairs), by-height windows at the 32-bit limits and with negative start or length, and for two stored headers of which neither descends from the other the same-chain error is required (unless the would-be ancestor lies above the header). Windows of 1999..2002 and 4001 heights on stores beyond height 2100; no header listed twice.",
  "C05": "faults after which ingestion carries on in the same process, COMMITs refused inside SQLite (deferred foreign key raised by a trigger), reorganisations over 520 / 2010 heights, restarts onto a prepared-database configuration, a child of the earlier tip submitted right after a failed submission, a first start killed before the genesis insert.",
  "C06": "single-peer syncs are judged at the quiescence that follows the initial sync, before anything is announced (also after a scripted loss of the first connection once the re-dial was seen); slack rounds re-announce the same tip; peers lost before their version / between version and verack / right after the handshake, peers that answer beyond the stop hash, report a height below their chain, reorganise between announcements, batch their inv announcements; stores with a stale fork taller than the peer's chain; a registered webhook whose endpoint accepts every delivery and answers none (a sync that only completes once the endpoint answers is reported); thorough tier: 135 s idle periods in which the sync manager's periodic check drops the quiet sync peer.",
- "C07": "re-offence after an elapsed ban over a connection the host kept, offenders that behave after one offence, a forbidden header exactly at a checkpoint height, checkpoint-advance scenarios on both engines with nodes that answer beyond the stop hash (a checkpoint header in the middle of a message, several checkpoints in one message) and an exact stop-hash oracle (each request stops at the first checkpoint above what has been delivered; zero or an announced block after the last), offenders that first send a message with an unknown command (experimental engine) or that are no full nodes and push their headers right after the handshake (default engine), hit-and-run offenders, and repentant offenders whose host goes away with the offending connection: the service's re-dial of the banned host is awaited and must not stay admitted.",
+ "C07": "re-offence after an elapsed ban over a connection the host kept, offenders that behave after one offence, a forbidden header exactly at a checkpoint height, checkpoint-advance scenarios on both engines with nodes that answer beyond the stop hash (a checkpoint header in the middle of a message, several checkpoints in one message) and an exact stop-hash oracle (each request stops at the first checkpoint above what has been delivered; zero or an announced block after the last), offenders that first send a message with an unknown command (experimental engine) or that are no full nodes and push their headers right after the handshake (default engine), hit-and-run offenders, and repentant offenders whose host goes away with the offending connection: the service's re-dial of the banned host is awaited and must not stay admitted. A forbidden header right behind a matching checkpoint header in one message; in experimental-engine scenarios the package-level checkpoint list differs from the chain parameters.",
  "C08": "page sizes at and beyond the 32-bit limits, near misses of stored keys (case, a digit cut or appended, 0x prefix, byte-reversed), walks with restarts between pages, walks after a reorganisation was interrupted by a failing relabelling statement, a 2081-block chain after a 2050-deep reorganisation, walks after two competing children of the tip were submitted by two goroutines at once (the first to reach its INSERT waits up to 5 ms for the other).",
- "C09": "near-valid and case-swapped credentials, a revocation whose COMMIT is refused, configuration points with debug logging (gin in debug mode), a user token used on DELETE /access/:token with its own value, requests of the none/unknown/revoked classes dressed up as websocket upgrades.",
- "C10": "revocations and creations whose statements fail or whose COMMIT is refused, revocation under an exclusive lock held by another connection, bursts of creations, many simultaneous websocket connections with one token, revocation while clients keep authenticating (a look-up that starts after the acknowledged revocation must fail), admin-derived unknown tokens.",
- "C11": "two goroutines delivering the same header at the same moment, the production webhook client against real HTTP servers (500 / dropped connection / 503 in turn), a flaky healthy webhook, bursts of 300-500 headers while the websocket publisher is blocked, webhooks registered with bearer / custom header / no authorisation and URLs with upper-case letters, a trailing slash and a query (a POST to any other URL is reported), webhooks switched off by max_tries failures and registered again (exactly one event for every header stored afterwards).",
- "C12": "non-UTC process time zones, long tokens, bearer registrations that also name a header, 200 replies that arrive in several flushed parts, URLs with a trailing slash / upper-case letters / a query matched character for character, and the reported time of the last attempt must lie inside the bracket the harness measured around the Notify call (2 ms of slack).",
+ "C09": "near-valid and case-swapped credentials, a revocation whose COMMIT is refused, configuration points with debug logging (gin in debug mode), a user token used on DELETE /access/:token with its own value, requests of the none/unknown/revoked classes dressed up as websocket upgrades. A revocation served while the tokens table is away; a restart with http.auth_token changed (the former admin token is refused).",
+ "C10": "revocations and creations whose statements fail or whose COMMIT is refused, revocation under an exclusive lock held by another connection, bursts of creations, many simultaneous websocket connections with one token, revocation while clients keep authenticating (a look-up that starts after the acknowledged revocation must fail), admin-derived unknown tokens. Look-ups while a second connection holds a write transaction open.",
+ "C11": "two goroutines delivering the same header at the same moment, the production webhook client against real HTTP servers (500 / dropped connection / 503 in turn), a flaky healthy webhook, bursts of 300-500 headers while the websocket publisher is blocked, webhooks registered with bearer / custom header / no authorisation and URLs with upper-case letters, a trailing slash and a query (a POST to any other URL is reported), webhooks switched off by max_tries failures and registered again (exactly one event for every header stored afterwards). A third of the worker processes run in Asia/Kolkata, a third in America/St_Johns.",
+ "C12": "non-UTC process time zones, long tokens, bearer registrations that also name a header, 200 replies that arrive in several flushed parts, URLs with a trailing slash / upper-case letters / a query matched character for character, and the reported time of the last attempt must lie inside the bracket the harness measured around the Notify call (2 ms of slack). Stores of 498..640 webhooks with the last few failing.",
  "C13": "stores questioned in stages while they grow (earlier answers must not change), stores whose reorganisation was interrupted by a failing relabelling statement (at the repository seam and inside SQLite), stores on testnet / regtest / simnet, stores filled by the start-up import (after a refused first import) and then given heavier competitors at the tip height, stores after a reorganisation over 501 heights (thorough: 499..2001), and wire-level questions over TCP incl. the full 2000-header answer (a dropped connection instead of an answer is a violation).",
  "C14": "exact timestamps, 16 concurrent encoders on the codec's shared scratch buffers with a hostile goroutine feeding truncated frames before and beside them, allocations above the bound are measured again twice (the smallest value counts).",
  "C15": "free-running reorganisation storms (one submitter, six readers; every read names a stored header, the submitter reads the tip back after each of its submissions, a divergent submission is replayed with no reader active), reorganisations over exactly 500 / 1000 heights with readers, a locator reader and forbidden submissions during storms, peers on a losing branch announcing their own tip, eight hosts connecting at once to a service past its last checkpoint; thorough tier: scenarios in which the sync manager's 30-second check drops a quiet sync peer with no other candidate connected.",
- "C16": "worker processes with metrics enabled and with authentication switched off, invalid UTF-8 and 50 001 / 70 000-character values, wildcard-like values, and a structured error document sent with a 2xx status is reported.",
- "C17": "a leftover dump file, twin rows, an archive cut exactly at a row boundary, comment-marker corruptions of the first column, schema objects compared with a pristine database after every refusal (left behind or missing), every third import under p2p.disable_checkpoints.",
- "C18": "monitor 3: the real address manager under AddAddresses / Attempt / Good / Connected / BanAddress / GetAddress sequences, incl. address books of 2300-3200 addresses of one group (tried buckets overflow) that are all banned afterwards (GetAddress must return, with the one good address left); monitor 4: p2putil.NewAddressFunc over the real address manager (non-default ports, addresses tried a moment ago; up to 400 calls, as the connection manager would ask again); monitor 5: the real server (connection manager, address manager, peer handler, sync manager) against one scripted node whose first connection - or first 9-12 connections - goes away before its version / between version and verack / right after the handshake / mid-sync / after two version messages: no connection held, an address known and not one dial attempt in more than 70 s (retry interval 5 s) means the slot is lost; re-ban cases (a 3 s ban elapses unnoticed, the host offends again over a connection it kept); half-handshake peers in the peer book.",
+ "C16": "worker processes with metrics enabled and with authentication switched off, invalid UTF-8 and 50 001 / 70 000-character values, wildcard-like values, and a structured error document sent with a 2xx status is reported. After each store's requests a header is announced to a registered webhook whose target cannot be reached (webhooks channel wired as in cmd/main.go).",
+ "C17": "a leftover dump file, twin rows, an archive cut exactly at a row boundary, comment-marker corruptions of the first column, schema objects compared with a pristine database after every refusal (left behind or missing), every third import under p2p.disable_checkpoints. Stores whose blocks' work lies next to 2^32 / 2^64 / 2^128 / 2^192.",
+ "C18": "monitor 3: the real address manager under AddAddresses / Attempt / Good / Connected / BanAddress / GetAddress sequences, incl. address books of 2300-3200 addresses of one group (tried buckets overflow) that are all banned afterwards (GetAddress must return, with the one good address left); monitor 4: p2putil.NewAddressFunc over the real address manager (non-default ports, addresses tried a moment ago; up to 400 calls, as the connection manager would ask again); monitor 5: the real server (connection manager, address manager, peer handler, sync manager) against one scripted node whose first connection - or first 9-12 connections - goes away before its version / between version and verack / right after the handshake / mid-sync / after two version messages: no connection held, an address known and not one dial attempt in more than 70 s (retry interval 5 s) means the slot is lost; re-ban cases (a 3 s ban elapses unnoticed, the host offends again over a connection it kept); half-handshake peers in the peer book. IPv6 hosts in the peer-book universe.",
  "C19": "purity: every 16th value is asked three times in a row.",
- "C20": "decoy files next to the selected one (.json / .yml), a selected config.yaml in another directory while the working directory holds a different one, BHS_CONFIG_FILE pointing elsewhere while the option names the file, every fourth file selected through BHS_CONFIG_FILE with no option at all, values with '$', the defaults object compared before and after every resolution, engine variants cross-checked against database.Init.",
+ "C20": "decoy files next to the selected one (.json / .yml), a selected config.yaml in another directory while the working directory holds a different one, BHS_CONFIG_FILE pointing elsewhere while the option names the file, every fourth file selected through BHS_CONFIG_FILE with no option at all, values with '$', the defaults object compared before and after every resolution, engine variants cross-checked against database.Init. Files named relative to the working directory.",
 }
 
 NOT_YET = "check not built yet in this session (work in progress; design in DESIGN.md §5)"
